@@ -193,15 +193,14 @@ theorem unquote_pyStrBody : ∀ {v : Str}, plainText v = true → unquote (pyStr
   | c :: cs, h => by
       simp only [plainText, List.all_cons, Bool.and_eq_true] at h
       have ih := unquote_pyStrBody (v := cs) (by simpa [plainText] using h.2)
+      unfold unquote at ih ⊢
       have hc := h.1
       simp only [plainChar, Bool.not_eq_true', Bool.or_eq_false_iff, beq_eq_false_iff_ne, ne_eq] at hc
       by_cases h92 : c = 92
-      · subst h92; simp [pyStrBody, unquote, ih]
+      · subst h92; simp [pyStrBody, unquoteAux, ih]
       · by_cases h39 : c = 39
-        · subst h39; simp [pyStrBody, unquote, ih]
-        · have : pyStrBody (c :: cs) = c :: pyStrBody cs := by simp [pyStrBody, h92, h39]
-          rw [this, unquote.eq_def]
-          simp [h92, h39, hc, ih]
+        · subst h39; simp [pyStrBody, unquoteAux, ih]
+        · simp [pyStrBody, unquoteAux, h92, h39, hc, ih]
 
 theorem isNatLit_digits {s : Str} (h : isNatLit s = true) : s.all isDigit = true := by
   simp only [isNatLit, Bool.and_eq_true] at h
@@ -876,6 +875,7 @@ theorem agree_elem {impl : Impl} {s : Spec} {enums seen : List Str} {env : Env} 
         have hqq := hq k ch hdom
         obtain ⟨d, hdv⟩ := docValue_ok hdflt
         rw [hdv] at hevl
+        simp only [beq_iff_eq] at hsyn hevl
         refine ⟨_, ⟨n, el, some d⟩, by simp only [genField, hcond, Bool.false_eq_true, if_false, hth, htyd]; rfl, ?_, ?_, ?_, ?_⟩
         · simp [FieldDecl.syntaxOk, toDef, hn, orEmpty, hidn, hsynT, hidH, hd, hqq, hsyn]
         · simp [evalField, hev, toDef, hn, orEmpty, hd, hqq, hevl]
@@ -1291,19 +1291,19 @@ theorem messages_ok {impl : Impl} {s : Spec} (h : WF impl s) :
       obtain ⟨h1, h2⟩ := messages_ok h gs ((msgIdVal g, orEmpty g.direction) :: reg) _
         (fun x hx => hsub x (List.mem_cons_of_mem _ hx)) hpush hregrest
       have hevm : evalMessage impl env reg (msgDecl s g) = .ok (msgSem impl s g) := by
-        simp only [evalMessage, msgDecl, henv.message, henv.record, ok_bind, b3, m2, d1, hfresh, Bool.false_eq_true,
+        simp only [evalMessage, msgDecl, henv.message, henv.record, ok_bind, b3, m2, d1, d2, hfresh, Bool.false_eq_true,
           if_false, pure_eq_ok, msgSem]
       refine ⟨?_, ?_⟩
       · have hnm : (msgDecl s g).name = g.name := rfl
         have hdr : (msgDecl s g).direction = orEmpty g.direction := d1
         have hidv : (msgSem impl s g).id = msgIdVal g := rfl
-        simp only [List.map_cons, evalMessages, hevm, ok_bind, hnm, hdr, hidv, h1, pure_eq_ok]
+        simp only [List.map_cons, evalMessages, hevm, ok_bind, hnm, hdr, d2, hidv, h1, pure_eq_ok]
       · intro g' hg'
         rcases List.mem_cons.mp hg' with rfl | hg'
         · refine ⟨?_, ?_, ?_⟩
           · simp only [genMessage, msgDef, b1, ok_bind, pure_eq_ok, msgDecl]
           · have := (h.msgName hg).1
-            simp only [msgDecl, this, m1, d1, d2, b2, Bool.and_true]
+            simp only [msgDecl, this, m1, d1, quotedOk, d2, b2, Bool.and_true, Except.isOk, Except.toBool]
           · have hdd : denoteDir impl g'.direction = .ok (if impl = .itch then none else some (orEmpty g'.direction)) := by
               rw [d3]
               cases impl <;> simp [denoteDir, orEmpty]
